@@ -634,6 +634,168 @@ class _Tr:
         return text
 
 
+
+# ==========================================================================================
+# generators that walk ONE shared one-shot iterator with (nested / consecutive) for loops:
+# lstrip_iter, rstrip_iter
+# ==========================================================================================
+ITER_CFG = {
+    # state tuple: (name, Gallina type, initial value); `iterator` first, `_out` last
+    "lstrip_iter": {"params": ["iterable", "strip_value"], "defaults": ["Constant(value=None)"],
+                    "state": [("iterator", "list K", None), ("i", "K", "(0 : K)"), ("_out", "list K", "([] : list K)")],
+                    "bools": [], "lists": []},
+    "rstrip_iter": {"params": ["iterable", "strip_value"], "defaults": ["Constant(value=None)"],
+                    "state": [("iterator", "list K", None), ("i", "K", "(0 : K)"), ("cache", "list K", "([] : list K)"),
+                              ("broken", "bool", "false"), ("_out", "list K", "([] : list K)")],
+                    "bools": ["broken"], "lists": ["cache"]},
+}
+
+ITER_HEADER = """(* status of a block of statements: fell through / break / generator return / out of fuel *)
+Inductive gstat := GCont | GBrk | GRet | GFuel.
+"""
+
+
+class _IterTr:
+    """Conventions (in addition to the ones above):
+      * the state of the generator is the tuple of ALL its locals, in a fixed order, the shared
+        iterator being the list of items still to come; names not yet assigned hold a dummy
+        (reading one before it is bound would be a NameError in Python: the translator only
+        accepts a read when an assignment / loop binding syntactically dominates it);
+      * every block evaluates to (status, state); `for v in iterator: body` is a fuelled fixpoint
+        (fuel = S (length iterator) at the call, enough because every iteration consumes one
+        item): no item -> (GCont, state); otherwise v := item, the item is consumed, the body
+        runs: GCont -> next iteration, GBrk -> the loop ends normally, GRet / GFuel propagate;
+        the loop variable stays bound after the loop, as in Python;
+      * `yield from xs` appends the list xs to the output."""
+
+    def __init__(self, fname):
+        self.fname = fname
+        self.cfg = ITER_CFG[fname]
+        self.names = [n for n, _, _ in self.cfg["state"]]
+        self.loops = []          # emitted loop fixpoints (inner first)
+
+    def tup(self):
+        return "(" + ", ".join(self.names) + ")"
+
+    def sty(self):
+        return " * ".join("(%s)" % t for _, t, _ in self.cfg["state"])
+
+    def rd(self, name, node, bound):
+        if name == "strip_value":
+            return name
+        if name not in self.names or name in ("iterator", "_out"):
+            _fail(node, "unsupported name %s" % name)
+        if name not in bound:
+            _fail(node, "%s may be read before it is bound" % name)
+        return name
+
+    def expr(self, e, bound):
+        if isinstance(e, ast.Name):
+            return self.rd(e.id, e, bound)
+        if isinstance(e, ast.Constant) and isinstance(e.value, bool):
+            return "true" if e.value else "false"
+        if isinstance(e, ast.Call) and isinstance(e.func, ast.Name) and e.func.id == "list" and not e.args and not e.keywords:
+            return "[]"
+        if isinstance(e, ast.List) and not e.elts:
+            return "[]"
+        _fail(e, "unsupported expression")
+
+    def cond(self, t, bound):
+        if isinstance(t, ast.UnaryOp) and isinstance(t.op, ast.Not):
+            return "(negb %s)" % self.cond(t.operand, bound)
+        if isinstance(t, ast.Name) and t.id in self.cfg["bools"]:
+            return self.rd(t.id, t, bound)
+        if isinstance(t, ast.Compare) and len(t.ops) == 1 and isinstance(t.ops[0], (ast.Eq, ast.NotEq)) \
+                and isinstance(t.left, ast.Name) and isinstance(t.comparators[0], ast.Name):
+            a, b = self.rd(t.left.id, t, bound), self.rd(t.comparators[0].id, t, bound)
+            if {t.left.id, t.comparators[0].id} != {"i", "strip_value"}:
+                _fail(t, "only the element is compared with strip_value")
+            m = "(Nat.eqb %s %s)" % (a, b)
+            return m if isinstance(t.ops[0], ast.Eq) else "(negb %s)" % m
+        _fail(t, "unsupported condition")
+
+    def block(self, stmts, ind, bound, in_loop):
+        if not stmts:
+            return ind + "(GCont, %s)\n" % self.tup()
+        s, rest = stmts[0], stmts[1:]
+        if isinstance(s, ast.Expr) and isinstance(s.value, ast.Constant) and isinstance(s.value.value, str):
+            return self.block(rest, ind, bound, in_loop)
+        if isinstance(s, ast.Assign) and len(s.targets) == 1 and isinstance(s.targets[0], ast.Name):
+            x = s.targets[0].id
+            if x not in self.names or x in ("iterator", "_out", "i"):
+                _fail(s, "unsupported assignment")
+            if (x in self.cfg["bools"]) != (isinstance(s.value, ast.Constant) and isinstance(s.value.value, bool)):
+                _fail(s, "ill-kinded assignment")
+            return ind + "let %s := %s in\n" % (x, self.expr(s.value, bound)) + self.block(rest, ind, bound | {x}, in_loop)
+        if isinstance(s, ast.Expr) and isinstance(s.value, ast.Call) and isinstance(s.value.func, ast.Attribute) \
+                and s.value.func.attr == "append" and isinstance(s.value.func.value, ast.Name) \
+                and s.value.func.value.id in self.cfg["lists"] and len(s.value.args) == 1 and not s.value.keywords:
+            x = s.value.func.value.id
+            return ind + "let %s := %s ++ [%s] in\n" % (x, self.rd(x, s, bound), self.expr(s.value.args[0], bound)) \
+                + self.block(rest, ind, bound, in_loop)
+        if isinstance(s, ast.Expr) and isinstance(s.value, ast.Yield) and s.value.value is not None:
+            return ind + "let _out := _out ++ [%s] in\n" % self.expr(s.value.value, bound) + self.block(rest, ind, bound, in_loop)
+        if isinstance(s, ast.Expr) and isinstance(s.value, ast.YieldFrom) and isinstance(s.value.value, ast.Name) \
+                and s.value.value.id in self.cfg["lists"]:
+            return ind + "let _out := _out ++ %s in\n" % self.rd(s.value.value.id, s, bound) + self.block(rest, ind, bound, in_loop)
+        if isinstance(s, ast.Break):
+            if not in_loop:
+                _fail(s, "break outside a loop")
+            return ind + "(GBrk, %s)\n" % self.tup()
+        if isinstance(s, ast.Return) and s.value is None:
+            return ind + "(GRet, %s)\n" % self.tup()
+        if isinstance(s, ast.If):
+            c = self.cond(s.test, bound)
+            return (ind + "if %s\n" % c + ind + "then (\n" + self.block(list(s.body) + rest, ind + "  ", bound, in_loop) + ind + ")\n"
+                    + ind + "else (\n" + self.block(list(s.orelse) + rest, ind + "  ", bound, in_loop) + ind + ")\n")
+        if isinstance(s, ast.For) and not s.orelse and isinstance(s.target, ast.Name) and s.target.id == "i" \
+                and isinstance(s.iter, ast.Name) and s.iter.id == "iterator":
+            body = self.block(list(s.body), "          ", bound | {"i"}, True)
+            name = "G%s_loop%d" % (self.fname, len(self.loops) + 1)
+            self.loops.append(
+                "Fixpoint %s (fuel : nat) (strip_value : K) (st : %s) : gstat * (%s) :=\n"
+                "  match fuel with\n  | O => (GFuel, st)\n  | S fuel' =>\n"
+                "      let '%s := st in\n"
+                "      match iterator with\n      | [] => (GCont, st)\n      | _item :: _rest =>\n"
+                "          let iterator := _rest in\n          let i := _item in\n"
+                "          match (\n%s          ) with\n"
+                "          | (GCont, st') => %s fuel' strip_value st'\n"
+                "          | (GBrk, st') => (GCont, st')\n"
+                "          | other => other\n          end\n      end\n  end.\n"
+                % (name, self.sty(), self.sty(), self.tup(), body, name))
+            # after the loop `i` is bound only if the loop ran; accept reads of i after a loop only
+            # where it was already bound before (otherwise the dominating-assignment rule fails)
+            t = ind + "match %s (S (length iterator)) strip_value %s with\n" % (name, self.tup())
+            t += ind + "| (GCont, _st) =>\n" + ind + "  let '%s := _st in\n" % self.tup()
+            t += self.block(rest, ind + "  ", bound, in_loop)
+            t += ind + "| other => other\n" + ind + "end\n"
+            return t
+        _fail(s, "unsupported statement")
+
+    def function(self, fn):
+        cfg = self.cfg
+        a = fn.args
+        if [x.arg for x in a.args] != cfg["params"] or [ast.dump(d) for d in a.defaults] != cfg["defaults"] \
+                or a.vararg or a.kwarg or a.kwonlyargs or a.posonlyargs or fn.decorator_list:
+            _fail(fn, "unexpected signature")
+        body = list(fn.body)
+        if body and isinstance(body[0], ast.Expr) and isinstance(body[0].value, ast.Constant):
+            body = body[1:]
+        if not body or ast.dump(body[0]) != ast.dump(ast.parse("iterator = iter(iterable)").body[0]):
+            _fail(fn, "expected `iterator = iter(iterable)` first")
+        top = self.block(body[1:], "    ", set(), False)
+        g = "G" + self.fname
+        text = "".join(l + "\n" for l in self.loops)
+        inits = "".join("  let %s := %s in\n" % (n, v) for n, _, v in cfg["state"] if v is not None)
+        text += ("Definition %s (iterable : list K) (strip_value : K) : option (list K) :=\n"
+                 "  let iterator := iterable in\n%s"
+                 "  match (\n%s  ) with\n  | (GFuel, _) => None\n  | (_, %s) => Some _out\n  end.\n"
+                 % (g, inits, top, self.tup()))
+        return text
+
+
+ITER_FUNCTIONS = ["lstrip_iter", "rstrip_iter"]
+
 FUNCTIONS = ["split_iter", "unique_iter", "bucketize", "redundant", "chunked_iter"]
 
 
@@ -652,6 +814,10 @@ def translate(repo, only=None):
                 out += "(* ---- %s, %s=%s ---- *)\n" % (f, name, v) + tr.function(f, _find(tree, f)) + "\n"
         else:
             out += "(* ---- %s ---- *)\n" % f + _Tr(f).function(f, _find(tree, f)) + "\n"
+    if only is None:
+        out += ITER_HEADER + "\n"
+        for f in ITER_FUNCTIONS:
+            out += "(* ---- %s ---- *)\n" % f + _IterTr(f).function(_find(tree, f)) + "\n"
     return out
 
 
@@ -670,6 +836,8 @@ def selftest(repo):
         ("    if callable(sep):\n        sep_func = sep", "    if callable(sep):\n        sep_func = sep\n        cur_group = [sep]"),
         ("                redundant_groups[k] = [seen[k], i]", "                redundant_groups[k] = [i, i]"),
         ("            cur_chunk[lc:] = [fill_val] * (size - lc)", "            cur_chunk[lc:] = [fill_val] * size"),
+        ("            if not broken:  # Return to caller here because the end of the\n                return     # iterator has been reached", "            if not broken:\n                yield from cache\n                return"),
+        ("        if i != strip_value:\n            yield i\n            break", "        if i != strip_value:\n            yield i"),
         ("        if not cur_chunk:\n            break", "        if len(cur_chunk) < size:\n            break"),
         ("        ret = [redundant_groups[k][1] for k in redundant_order]", "        ret = [redundant_groups[k][0] for k in redundant_order]"),
     ]
